@@ -272,6 +272,10 @@ def gen_case(seed, tier, index=0):
                 st["pool"] = pool
             steps.append(st)
         variants.append({"hashseed": hs[v % len(hs)], "steps": steps, "slot": v})
+    if tier == "thorough" and index % 8 == 0:
+        # fidelity of the stub: the same commands on the real multiprocessing.Pool (never a source of VIOLATIONs)
+        steps = [{"argv": list(c), "cwd": ".", "real_pool": True} for c in cmds]
+        variants.append({"hashseed": hs[0], "steps": steps, "slot": nvar, "nondeterministic": True})
     return {"prop": PROP, "seed": seed, "world": world, "variants": variants}
 
 
@@ -429,6 +433,8 @@ def _axes(v0, v1, si):
 
 def account(case, results, cov):
     cov.nontrivial.add(digest(case["world"]))
+    if any(v.get("nondeterministic") for v in case["variants"]):
+        cov.bump("real_pool_fidelity_worlds_compared")
     for var in case["variants"]:
         st = var["steps"][0]
         root = st["argv"][st["argv"].index("--root") + 1] if "--root" in st["argv"] else "<omitted>"
